@@ -1,7 +1,7 @@
 (* C20  Pointer position and button events are visible to the guest as reported. *)
 From Coq Require Import ZArith List Bool.
 From Dmd Require Import Model.Bits Model.Fifo Model.Mem Model.Mouse Model.Duart Model.Bus
-     Proofs.BusProofs Proofs.DuartProofs Proofs.DuartProofs2.
+     Proofs.BusProofs Proofs.DuartProofs Proofs.DuartProofs2 Gen.GenDuart Gen.GenMouse Proofs.MouseTie.
 Open Scope Z_scope.
 
 (* halfword reads of the mouse registers return the coordinates last reported: vertical first, horizontal second *)
@@ -62,3 +62,10 @@ Theorem C20_request_until_ipcr_read :
     bset (ivec (dstep o d)) MOUSE_BLANK_INT = true.
 Proof. exact request_until_ipcr_read. Qed.
 Print Assumptions C20_request_until_ipcr_read.
+
+(* the button-event functions the theorems above speak about are Duart::mouse_down / Duart::mouse_up as they stand in
+   /repo/src/duart.rs: Gen/GenMouse.v is their statement-by-statement translation, regenerated on every run *)
+Theorem C20_button_events_are_source_functions :
+  (forall d b, mouse_down d b = g_mouse_down d b) /\ (forall d b, mouse_up d b = g_mouse_up d b).
+Proof. split; [exact mouse_down_is_source | exact mouse_up_is_source]. Qed.
+Print Assumptions C20_button_events_are_source_functions.
